@@ -37,13 +37,13 @@ func (mediumEngine) Meta(prop, tier string) meta {
 	stub := []string{"publisher/encoder (harness model builder + proto.Marshal)", "the byte medium and its faults", "io.ReaderAt under archive/zip", "reference decoder refdec (independent of gonnx)"}
 	if prop == "C18" {
 		return meta{Level: "fault_enumeration",
-			Rule: "case = (reader, bytes on the medium after a fault plan). Enumerated completely: every truncation offset and every single-bit flip of every base model <= 4 KB (sample files incl. the git-LFS pointer, generated models); all byte strings of length 0..2; the opset grid (all pairs over 22 values, all 1 728 ordered triples over 12 boundary values); unknown operator names (case/padding/prefix/suffix variants, 33 patterns embedding an implemented name, near-misses of every implemented name) x node position and 11 graph contexts (output-name collisions, no outputs, only node ...); one-field-at-a-time structured perturbations of every initializer / value-info / node; extent-overflow tensors; sparse initializers (46 well-formed and damaged); archives with forged sizes and checksums; models wrapped in or replaced by other formats (gzip, tar, tar.gz, zip-as-bytes, magic numbers), cut and flipped; missing file and directory; node domains and node names around unknown operators (duplicates, nameless), operator names with code points whose case mappings change length or leave ASCII; fields nested 10^2..3*10^6 levels deep; every unknown-operator graph is Run three times and the worst answer judged. A seeded quarter of the cases runs with the environment variables the tree reads (scanned from its sources) set. Seeded: schema-driven messages built by protobuf reflection over every field of the ONNX schema; the single faults through the file and zip readers (strided in quick); damaged archives and failing reader regions under archive/zip; 1-4-fault combinations incl. torn v1/v2 updates until the budget ends. The medium preserves file modification times. non-trivial = the fault plan changed at least one byte the reader consumed, or the input is a generated adversarial one; distinct = by hash of (reader, bytes, reader fault).",
+			Rule:        "case = (reader, bytes on the medium after a fault plan). Enumerated completely: every truncation offset and every single-bit flip of every base model <= 4 KB (sample files incl. the git-LFS pointer, generated models); all byte strings of length 0..2; the opset grid (all pairs over 22 values, all 1 728 ordered triples over 12 boundary values); unknown operator names (case/padding/prefix/suffix variants, 33 patterns embedding an implemented name, near-misses of every implemented name) x node position and 11 graph contexts (output-name collisions, no outputs, only node ...); one-field-at-a-time structured perturbations of every initializer / value-info / node; extent-overflow tensors; sparse initializers (46 well-formed and damaged); archives with forged sizes and checksums; models wrapped in or replaced by other formats (gzip, tar, tar.gz, zip-as-bytes, magic numbers), cut and flipped; missing file and directory; node domains and node names around unknown operators (duplicates, nameless), operator names with code points whose case mappings change length or leave ASCII; fields nested 10^2..3*10^6 levels deep; every unknown-operator graph is Run three times and the worst answer judged. A seeded quarter of the cases runs with the environment variables the tree reads (scanned from its sources) set. Seeded: schema-driven messages built by protobuf reflection over every field of the ONNX schema; the single faults through the file and zip readers (strided in quick); damaged archives and failing reader regions under archive/zip; 1-4-fault combinations incl. torn v1/v2 updates until the budget ends. The medium preserves file modification times. non-trivial = the fault plan changed at least one byte the reader consumed, or the input is a generated adversarial one; distinct = by hash of (reader, bytes, reader fault).",
 			Assumptions: []string{"refparse = protobuf Unmarshal into the repo's generated ONNX types decides what a damaged file declares (opset, operator names, initializers)", "operator names outside pinned-55 ∪ GetOpNames() count as not implemented", "oracle (iii) synthesises inputs from the declared signature; files whose declared inputs cannot be synthesised are only checked for 'no panic'", "Run panics on loadable-but-damaged graphs are outside C18 (only construction must not panic)"},
 			Real:        real, Stub: stub,
 			Exhaustive: "single truncation and single bit-flip spaces of all base files <= 4 KB through NewModelFromBytes; all byte strings of length <= 2; opset and operator-name grids; structured one-field perturbations"}
 	}
 	return meta{Level: "fault_enumeration",
-		Rule: "case = stored tensor (11 element types x typed/raw x rank 0..4 x value patterns incl. extremes, -0, signalling NaNs) held as initializer, as Constant value and (one-element tensors) as ConstantOfShape value, read fault-free and under every tensor-granularity fault (payload short/long by a byte or an element, emptied, halved; typed count +-1; each extent +-1, negated, zeroed, doubled; dims added/dropped; data_type replaced by every code -1..22), every unsupported data_type with each typed field populated, large tensors (4 097..65 537 elements), extents whose product or byte size wraps in 64-bit arithmetic, look-alike initializer pairs (identical payload bytes of 64 B..256 KiB under other dims / types / names), payload stored only in a typed field of another element type, initializers whose names collide under normalisation, initializers contradicted by graph.input / value_info / output declarations, model metadata (producer names and versions, ir_version, domain, metadata_props, doc strings), the same models handed over as caller-built messages through gonnx.NewModel (empty fields nil or empty non-nil), exhaustive truncation/bit-flip of small weight files (thorough: every pair of bit flips of the smallest ones), then seeded v1->v2 publish/torn-update sequences. Expected outcome comes from the independent decoder refdec: well-formed => loads and equals bit for bit, also when decoded a second time; malformed/unrepresentable => error; unspecified by ONNX => no panic and the same answer on every decode. non-trivial = fault-free round trip of a non-empty tensor, or damage inside the tensor/its header; distinct = by hash of (reader, bytes).",
+		Rule:        "case = stored tensor (11 element types x typed/raw x rank 0..4 x value patterns incl. extremes, -0, signalling NaNs) held as initializer, as Constant value and (one-element tensors) as ConstantOfShape value, read fault-free and under every tensor-granularity fault (payload short/long by a byte or an element, emptied, halved; typed count +-1; each extent +-1, negated, zeroed, doubled; dims added/dropped; data_type replaced by every code -1..22), every unsupported data_type with each typed field populated, large tensors (4 097..65 537 elements), extents whose product or byte size wraps in 64-bit arithmetic, look-alike initializer pairs (identical payload bytes of 64 B..256 KiB under other dims / types / names), payload stored only in a typed field of another element type, initializers whose names collide under normalisation, initializers contradicted by graph.input / value_info / output declarations, model metadata (producer names and versions, ir_version, domain, metadata_props, doc strings), the same models handed over as caller-built messages through gonnx.NewModel (empty fields nil or empty non-nil), exhaustive truncation/bit-flip of small weight files (thorough: every pair of bit flips of the smallest ones), then seeded v1->v2 publish/torn-update sequences. Expected outcome comes from the independent decoder refdec: well-formed => loads and equals bit for bit, also when decoded a second time; malformed/unrepresentable => error; unspecified by ONNX => no panic and the same answer on every decode. non-trivial = fault-free round trip of a non-empty tensor, or damage inside the tensor/its header; distinct = by hash of (reader, bytes).",
 		Assumptions: []string{"refdec encodes the ONNX TensorProto rules (typed field per element type, little-endian raw_data, element count = product of dims)", "cases ONNX leaves unspecified are judged only for 'no panic' and 'same answer on every decode': both encodings populated, another type's typed field populated next to the declared type's own payload, carrier values outside the narrow type's range, bool bytes other than 0/1, external data; an empty tensor may be refused but if decoded keeps its declared type and shape", "a refusal of a file whose initializers are all well-formed is a violation only if attributable to a weight (the tree's own TensorFromProto refuses it, or the same file with trivial initializers loads)", "weights are observed through the verif-tag accessor and through Run on node-free / Constant-only graphs"},
 		Real:        real, Stub: stub,
 		Exhaustive: "the type x encoding x rank x tensor-fault grid; single truncation and bit-flip spaces of the small weight-only and generated model files"}
